@@ -108,7 +108,7 @@ Section Model.
         match all_some (vget i1 m) with
         | None => Err EType
         | Some row1 =>
-            let e2 := if sltb S c999 (scal S row1 (ex S)) then ey S else ex S in
+            let e2 := if sltb S c999 (sabs S (scal S row1 (ex S))) then ey S else ex S in
             let w := vdiff S e2 (renorm_to S (scal S e2 row1) row1) in
             if isz (mag S row1) || isz (mag S w) then Err EZeroDiv else
             let row2 := renorm S w in
@@ -281,15 +281,47 @@ Section Model.
      item4 at_ 0 3 *! two; item4 at_ 1 3 *! two; item4 at_ 2 3 *! two;
      item4 at_ 3 3].
 
+  (* ---- quadric helpers (ConversionSurfaceMCNPToT4.eval_quadric, sq_to_gq) ---- *)
+  Definition eval_quadric (q : list T) (p : V3 T) : T :=
+    let c := fun i => nth i q 0! in
+    let x := vx p in let y := vy p in let z := vz p in
+    c 0%nat *! (x *! x) +! c 1%nat *! (y *! y) +! c 2%nat *! (z *! z)
+    +! c 3%nat *! x *! y +! c 4%nat *! y *! z +! c 5%nat *! z *! x
+    +! c 6%nat *! x +! c 7%nat *! y +! c 8%nat *! z +! c 9%nat.
+
+  Definition sq_expand (sq : list T) : list T :=
+    let c := fun i => nth i sq 0! in
+    let a := c 0%nat in let b := c 1%nat in let cc := c 2%nat in
+    let d := c 3%nat in let e := c 4%nat in let f := c 5%nat in let g := c 6%nat in
+    let x := c 7%nat in let y := c 8%nat in let z := c 9%nat in
+    let two := sofZ S 2 in
+    [a; b; cc; 0!; 0!; 0!;
+     two *! d -! two *! a *! x;
+     two *! e -! two *! b *! y;
+     two *! f -! two *! cc *! z;
+     a *! (x *! x) +! b *! (y *! y) +! cc *! (z *! z)
+       -! two *! (d *! x +! e *! y +! f *! z) +! g].
+
+  (* ConversionSurfaceMCNPToT4.sq_to_gq: the expansion, negated when the
+     quadric is positive at (x, y, z) *)
+  Definition sq_to_gq (sq : list T) : list T :=
+    let gq := sq_expand sq in
+    let centre := mkV (nth 7 sq 0!) (nth 8 sq 0!) (nth 9 sq 0!) in
+    if sltb S 0! (eval_quadric gq centre) then map (sneg S) gq else gq.
+
   (* Transformation.transformation *)
   Definition transformation (tr : list T) (s : msurf T) : res (msurf T) :=
     match tr with
     | [] => Ok s
     | _ =>
         match mk s with
-        | KSQ | KGQ =>
+        | KSQ =>
+            (* an SQ surface is first rewritten as a GQ (sq_to_gq) *)
+            if Nat.ltb (List.length (mcp s)) 10 || Nat.ltb (List.length tr) 12 then Err EIndex
+            else Ok (mkMS KGQ (mpt s) (maxis s) (transformation_quad (sq_to_gq (mcp s)) tr) (mnap s))
+        | KGQ =>
             if Nat.ltb (List.length tr) 12 || Nat.ltb (List.length (mcp s)) 10 then Err EIndex
-            else Ok (mkMS (mk s) (mpt s) (maxis s) (transformation_quad (mcp s) tr) (mnap s))
+            else Ok (mkMS KGQ (mpt s) (maxis s) (transformation_quad (mcp s) tr) (mnap s))
         | _ =>
             match tr_parts tr with
             | None => Err EValue
@@ -350,32 +382,9 @@ Section Model.
     | radius :: _ => Ok (plain SPHERE [vx p; vy p; vz p; radius])
     end.
 
-  Definition eval_quadric (q : list T) (p : V3 T) : T :=
-    let c := fun i => nth i q 0! in
-    let x := vx p in let y := vy p in let z := vz p in
-    c 0%nat *! (x *! x) +! c 1%nat *! (y *! y) +! c 2%nat *! (z *! z)
-    +! c 3%nat *! x *! y +! c 4%nat *! y *! z +! c 5%nat *! z *! x
-    +! c 6%nat *! x +! c 7%nat *! y +! c 8%nat *! z +! c 9%nat.
-
-  Definition sq_to_gq (sq : list T) : list T :=
-    let c := fun i => nth i sq 0! in
-    let a := c 0%nat in let b := c 1%nat in let cc := c 2%nat in
-    let d := c 3%nat in let e := c 4%nat in let f := c 5%nat in let g := c 6%nat in
-    let x := c 7%nat in let y := c 8%nat in let z := c 9%nat in
-    let two := sofZ S 2 in
-    [a; b; cc; 0!; 0!; 0!;
-     two *! d -! two *! a *! x;
-     two *! e -! two *! b *! y;
-     two *! f -! two *! cc *! z;
-     a *! (x *! x) +! b *! (y *! y) +! cc *! (z *! z)
-       -! two *! (d *! x +! e *! y +! f *! z) +! g].
-
   Definition convert_special_quadric (s : msurf T) : res (t4surf T) :=
     let sq := mcp s in
-    if Nat.ltb (List.length sq) 10 then Err EIndex else
-    let gq := sq_to_gq sq in
-    let centre := mkV (nth 7 sq 0!) (nth 8 sq 0!) (nth 9 sq 0!) in
-    Ok (plain QUAD (if sltb S 0! (eval_quadric gq centre) then map (sneg S) gq else gq)).
+    if Nat.ltb (List.length sq) 10 then Err EIndex else Ok (plain QUAD (sq_to_gq sq)).
 
   (* numpy.allclose(a, b) with the default rtol = 1e-5, atol = 1e-8 *)
   Definition rtol : T := 1! /! sofZ S 100000.
